@@ -91,6 +91,11 @@ def tpl_tail(version):
     return "\n" if version % 2 == 0 else ""
 
 
+def render(chars):
+    """A name of spec/OutputNames.tla (a sequence of characters; "U" stands for a non-ASCII letter) as a string."""
+    return "".join(u"\u00f6" if c == "U" else c for c in chars)
+
+
 class Plot(object):
     """Naming and data of one plot (one source) or one group (several sources, one tex / pdf / png).
 
@@ -103,8 +108,10 @@ class Plot(object):
     Sources are histograms, graphs, plain strings (by position and `variant`) or objects with a write method.
     """
 
-    def __init__(self, p, nsrc, obj, grouped, variant=0, pngext="png", nplots=2):
+    def __init__(self, p, nsrc, obj, grouped, variant=0, pngext="png", nplots=2, named=None):
         self.p, self.nsrc, self.obj, self.grouped, self.variant = p, nsrc, obj, grouped, variant
+        self.named = None          # names and places given by a scenario of spec/OutputNames.tla
+        self.base = None
         self.unnamed = False       # bare data without any context: Write's default name "output"
         self.dirname = ""          # where the files are expected, relative to the output directory
         self.ctx_dirname = None    # what context.output.dirname says (an absolute one is made relative by Write)
@@ -146,6 +153,17 @@ class Plot(object):
                 self.csvext = "dat"
             elif p >= 4:
                 self.dirname = self.ctx_dirname = "d%d" % p
+            if named is not None:
+                # a scenario of spec/OutputNames.tla: the names are those of the model (rendered), and so are the
+                # places where the files are expected (named["stated"]: output_directory/dirname/filename.fileext)
+                self.named = named
+                self.unnamed, self.dflt, self.ctx_dirname = False, None, None
+                self.gname = render(named["names"][p - 1])
+                self.members = [self.gname]
+                self.dirname = render(named["dir"])
+                self.csvext = render(named["cext"])
+                self.pngext = render(named["fmt"])
+                self.name_class = "name-" + named["class"][p - 1]
 
     def kind(self, m):
         if self.obj:
@@ -175,7 +193,17 @@ class Plot(object):
         out = {}
         if self.grouped:
             ctx["grp"] = self.gname
-        if not self.grouped and self.p == 2:
+        if self.named is not None:
+            # the directory name: in the context already, through MakeFilename(dirname="{{dir}}"), or through
+            # MakeFilename(dirname="{{dir}}", overwrite=True) over a stale name the value comes with
+            if self.named["via"] == "ctx":
+                if self.dirname:
+                    out["dirname"] = self.dirname
+            else:
+                ctx["dir"] = self.dirname
+                if self.named["via"] == "mfow":
+                    out["dirname"] = render(self.named["stale"])
+        elif not self.grouped and self.p == 2:
             ctx["dir"] = self.dirname
         elif self.ctx_dirname is not None:
             out["dirname"] = self.ctx_dirname
@@ -192,10 +220,14 @@ class Plot(object):
         return ctx
 
     def csv_path(self, outdir, m):
+        if self.named is not None:
+            return os.path.join(self.base, render(self.named["stated"][self.p - 1]["csv"]))
         return os.path.join(outdir, self.dirname,
                             (self.members[m - 1] or self.gname) + ("." + self.csvext if self.csvext else ""))
 
     def path(self, outdir, kind):
+        if self.named is not None:
+            return os.path.join(self.base, render(self.named["stated"][self.p - 1][kind]))
         return os.path.join(outdir, self.dirname, self.gname + "." + (self.pngext if kind == "png" else kind))
 
     def expected_tex(self, outdir, version):
@@ -273,7 +305,7 @@ class Workspace(object):
             # jinja2 reloads a template when its modification time differs
             os.utime(path, (stamp, stamp))
 
-    def pipeline(self, outdir, st, grouped, variant=0):
+    def pipeline(self, outdir, st, grouped, variant=0, fmt=None, mf_overwrite=False):
         import lena.core
         import lena.flow
         import lena.output
@@ -302,11 +334,11 @@ class Workspace(object):
                 lena.output.Write(outdir, verbose=bool((v + 1) % 2), **kw[st["m2"]]),
                 lena.output.LaTeXToPDF(overwrite=st["lo"], verbose=v % 3, create_command=cmd),
                 # (a generous subprocess timeout: the default 60 s can expire on a heavily loaded machine)
-                lena.output.PDFToPNG(format=png_format(v), overwrite=st["po"], verbose=bool(v % 2), timeoutsec=1800))
+                lena.output.PDFToPNG(format=fmt or png_format(v), overwrite=st["po"], verbose=bool(v % 2), timeoutsec=1800))
         if not grouped:
             return lena.core.Sequence(
                 tocsv, self.tap_csv,
-                lena.output.MakeFilename("{{name}}"), lena.output.MakeFilename(dirname="{{dir}}"),
+                lena.output.MakeFilename("{{name}}"), lena.output.MakeFilename(dirname="{{dir}}", overwrite=mf_overwrite),
                 # defaults for values that come without a directory / an extension of their own
                 lena.output.MakeFilename(dirname="{{dflt}}", fileext="csv"),
                 write1, render, *tail)
@@ -330,10 +362,17 @@ def run_history(ws, sc, st, steps, same_objects=False, variant=0):
     steps = list of {"del": [[p, kind, m]..], "data": [[p, m]..], "tpl": bool} (the touches before each run;
     the first run starts from an empty output directory).  Returns the list of run records."""
     ws.nhist += 1
-    outdir = os.path.join(ws.root, "out%d" % ws.nhist)
+    outdir = top = os.path.join(ws.root, "out%d" % ws.nhist)
+    named = sc.get("names")
+    if named is not None:
+        # the output directory has a name of the model as well (it may contain ".tex" / ".pdf")
+        outdir = os.path.join(top, render(named["root"]))
     plots = [Plot(p + 1, n, sc["obj"][p], sc["grouped"], variant, png_format(variant),
-                  nplots=len(sc["srcs"]) if not sc["grouped"] else 9)
+                  nplots=len(sc["srcs"]) if not sc["grouped"] else 9, named=named)
              for p, n in enumerate(sc["srcs"])]
+    for pl in plots:
+        pl.base = top
+    pipe_kw = {} if named is None else {"fmt": render(named["fmt"]), "mf_overwrite": named["via"] == "mfow"}
     data_ver = {pl.p: [1] * pl.nsrc for pl in plots}
     tpl_ver = 1
     ws.write_template(tpl_ver, 1000000000)
@@ -385,7 +424,7 @@ def run_history(ws, sc, st, steps, same_objects=False, variant=0):
             ws.write_template(tpl_ver, 1000000000 + 10 * tpl_ver)
         # (GroupBy keeps its groups between runs: a grouped pipeline is always built anew)
         if not same_objects or seq is None or sc["grouped"]:
-            seq = ws.pipeline(outdir, st, sc["grouped"], variant)
+            seq = ws.pipeline(outdir, st, sc["grouped"], variant, **pipe_kw)
         flow = []
         for pl in plots:
             for m in range(1, pl.nsrc + 1):
@@ -447,7 +486,7 @@ def run_history(ws, sc, st, steps, same_objects=False, variant=0):
                                     "data": [list(x) for x in step.get("data", [])],
                                     "tpl": bool(step.get("tpl"))},
                         "obs": obs, "exc": exc, "stray": len(others) + len(out) - sum(o["nvals"] for o in obs)})
-    shutil.rmtree(outdir, ignore_errors=True)
+    shutil.rmtree(top, ignore_errors=True)
     return records
 
 
